@@ -97,16 +97,27 @@ class FmtArgs:
 
 
 class It:
-    """lazy iterator over a python generator"""
+    """lazy iterator over a python generator (with one-item lookahead for Peekable)"""
 
     def __init__(self, gen):
         self.gen = gen
+        self.peeked = []
 
     def next(self):
+        if self.peeked:
+            return self.peeked.pop(0)
         try:
             return next(self.gen)
         except StopIteration:
             return None
+
+    def peek(self):
+        if not self.peeked:
+            try:
+                self.peeked.append(next(self.gen))
+            except StopIteration:
+                return None
+        return self.peeked[0]
 
 
 class PyMap:
@@ -630,9 +641,20 @@ class Machine:
             return Ref(base, i)
         if k == 'constindex':
             base = self.place_ref(fr, pl[1]).get()
-            m = re.match(r'(\d+) of (\d+)', pl[2])
+            base = deref(base) if not isinstance(base, list) else base
+            m = re.match(r'(-?\d+) of (\d+)', pl[2])
             if m:
-                return Ref(base, int(m.group(1)))
+                i = int(m.group(1))
+                if i < 0:
+                    i = len(base) + i
+                if not (0 <= i < len(base)):
+                    raise Panic('slice pattern index out of bounds')
+                return Ref(base, i)
+            m = re.match(r'(\d+):(-?\d*)$', pl[2])
+            if m:
+                lo = int(m.group(1))
+                hi = len(base) + int(m.group(2)) if m.group(2).startswith('-') else (int(m.group(2)) if m.group(2) else len(base))
+                return Ref([base[lo:hi]], 0)
             raise Unsupported('constindex ' + pl[2])
         raise Unsupported('place ' + k)
 
@@ -794,6 +816,13 @@ class Machine:
             raise Unsupported('unop %s on %r' % (rv[1], a))
         if k == 'cast':
             v = self.operand(fr, rv[1])
+            tgt = rv[2].strip()
+            if tgt == 'char' and isinstance(v, int) and not isinstance(v, bool):
+                return chr(v)
+            if tgt in INT_RANGES and isinstance(v, str) and len(v) == 1:
+                return ord(v)
+            if tgt in INT_RANGES and isinstance(v, bool):
+                return int(v)
             if 'IntToInt' in rv[3] and isinstance(v, int) and not isinstance(v, bool):
                 t = rv[2].strip()
                 if t in INT_RANGES:
@@ -895,7 +924,13 @@ class Machine:
             mm = re.match(r'\w+<(.*)>$', trq.split('::')[-1])
             if mm:
                 argty = mm.group(1).split('::')[-1]
-            return self.find_impl(ty, m.group(3), tr, argty)
+            b = self.find_impl(ty, m.group(3), tr, argty)
+            if b is None:
+                # a provided (default) method of a trait declared in the crate: its body is named <path>::Trait::method
+                cands = [bb for n, bb in self.b.items() if bb.kind == 'fn' and (n == '%s::%s' % (tr, m.group(3)) or n.endswith('::%s::%s' % (tr, m.group(3))))]
+                if len(cands) == 1:
+                    return cands[0]
+            return b
         m = re.match(r"([\w:]+)::(\w+)$", c)
         if m:
             ty = m.group(1).split('::')[-1]
